@@ -27,6 +27,9 @@ REQUIRED = [
     "Quat_mulAssign", "Quat_mulAssignSelf", "Quat_mulSelf", "Quat_mulAssignInverseSelf", "Quat_mulAssignConjSelf", "Quat_divAssignSelf",
     "Quat_divSelf", "Quat_setAxisAngleAliasV", "Quat_rotateVectorAliasV", "Quat_slerpSame", "Quat_setRotationModAliasV", "Quat_div_self",
     "slerp_same",
+    # r2: the tiny-angle branch of sinx_over_x; non-degenerate witness for spline_keys_real
+    "sinx_over_x_tiny", "sinx_over_x_tiny_real", "guard_small", "log_i", "log_neg_i", "log_one", "interP_11i", "interP_1ii",
+    "spline_witness_intermediates", "mul_sin_abs_div_abs", "slerp_exp_form", "sinx_over_x_big", "sinx_over_x_angle4D_ne_zero",
 ]
 
 # which residue checks speak about which generated function (for the failing-input search of a broken theorem)
@@ -38,12 +41,23 @@ THEOREM_TO_RESIDUE = [
     (r"orthonormal|_det|rotation", ["orthonormal"]),
     (r"extractQuat", ["extractQuat"]),
     (r"setAxisAngle|axis|angle", ["setAxisAngle-quat-vs-matrix", "setAxisAngle-exact", "axis-angle-roundtrip"]),
-    (r"exp|log", ["exp-log", "exp-log-formula"]),
+    (r"exp|log", ["exp-log", "exp-log-closed-form"]),
     (r"setRotation|rotationMatrix", ["setRotation-carries", "setRotation-unit", "rotationMatrix-carries", "setRotation-path-decision", "setRotation-guard-sweep"]),
     (r"slerpShortest", ["slerpShortestArc-angle"]),
     (r"slerp|normalize", ["slerp-unit", "slerp-endpoints", "slerp-angle-linear", "slerp-in-plane", "slerp-near-antipodal"]),
     (r"squad|spline|intermediate|interP", ["spline-tangent", "squad-keys", "spline-keys"]),
 ]
+
+
+MIN_HITS = 20
+# ~2 x the largest maximum seen on the clean tree (seeds 1-3 quick, seeds 1-3 at n = 12000), in the units of each check (eps * scale).
+# Checks whose bound is structural (the 8 eps fallback distance: setRotation-carries, rotationMatrix-carries, guard sweep) and the
+# rounding-dominated float tangent probe have no ceiling.
+DRIFT_CEIL = {"alias-product": 3, "alias-quotient": 4.5, "alias-vector-part": 4.5, "axis-angle-roundtrip": 4.5, "exp-log": 10, "exp-log-closed-form": 11,
+              "extractQuat": 4.5, "matrix-of-product": 8.5, "mul-inverse-identity": 4.5, "orthonormal": 9.5, "rotate-forms-agree": 7,
+              "setAxisAngle-exact": 11, "setAxisAngle-quat-vs-matrix": 12, "setRotation-axis": 3.5, "setRotation-opposite-lattice": 2.5,
+              "setRotation-unit": 6.5, "slerp-angle-linear": 5.5, "slerp-endpoints": 3, "slerp-in-plane": 2.5, "slerp-near-antipodal": 2.5,
+              "slerp-unit": 2.5, "slerpShortestArc-angle": 2.5, "spline-keys": 2, "squad-keys": 2, "spline-tangent:double": 0.3}
 
 
 def run_residue(chk, binary, n):
@@ -84,18 +98,33 @@ def residue(chk, binary, n):
             "slerpShortestArc:dot<0(negates)", "slerpShortestArc:dot>=0", "quat-class:w-near-0", "quat-class:w-near-+1", "quat-class:w-near--1",
             "direction-pair:angle=180-1e-k", "direction-pair:exactly-opposite",
             "slerp-pair:theta=180-1e-k(k=7..15)", "slerp-pair:bitwise-antipodal(q2=-q1)",
-            "exp-log:real-part-in(-1+64eps,-0.9)", "axis-class:tiny(length2-underflows)",
+            "exp-log:real-part-in(-1+64eps,-0.9)", "exp-log:real-part-in(-1+64eps,-0.999)", "axis-class:tiny(length2-underflows)",
             "alias-class:q*=q,q=q*q,q*=~q,q/=q,q=q/q,q*=q.inverse()", "alias-class:q.setAxisAngle(q.v,a),q.v=q.rotateVector(q.v)",
             # tiny-angle branches (mirrors of the code's tests)
-            "sinx_over_x(a):tiny-branch", "sinx_over_x(a):sin(x)/x", "sinx_over_x(t*a):tiny-branch", "log-branch:theta==0", "log-branch:theta/sin(theta)",
+            "sinx_over_x(a):tiny-branch", "sinx_over_x(a):sin(x)/x", "sinx_over_x(t*a):tiny-branch", "sinx_over_x(t*a):sin(x)/x",
+            "sinx_over_x:mixed(a-not-tiny,s*a-or-t*a-tiny)", "log-branch:theta==0", "log-branch:theta/sin(theta)",
             "exp-branch:guard(k=1,theta==0)", "exp-branch:sin(theta)/theta",
             "spline-tangent:joints-checked:one-hemisphere", "spline-tangent:joints-checked:hemisphere-change", "spline-tangent:joints-checked:repeated-key"]
     # a guard-sweep pair decided differently from the documented guard shows up as a hit of an unexpected (bucket, path) combination as well
     unexpected = [k for k in hits if k.startswith("guard-sweep:") and (
         (("(0,6]" in k or "(6,8]" in k) and "split" in k) or (("(8,10]" in k or "(10,24]" in k or ">24" in k) and "fallback" in k))]
-    missing = [k for k in need if not hits.get(k)] + ["UNEXPECTED " + k for k in unexpected]
-    chk.oblige("residue: every input class and code branch exercised (%d obligatory classes, hit counts in evidence)" % len(need), "residue",
-               not missing, missing or None)
+    # a class counts as exercised from MIN_HITS cases on (quick-tier counts on the clean tree are 100 .. 30000), not from one
+    missing = ["%s (%d < %d)" % (k, hits.get(k, 0), MIN_HITS) for k in need if hits.get(k, 0) < MIN_HITS] + ["UNEXPECTED " + k for k in unexpected]
+    chk.oblige("residue: every input class and code branch exercised at least %d times (%d obligatory classes, hit counts in evidence)" % (
+        MIN_HITS, len(need)), "residue", not missing, missing or None)
+    # drift: the bounds are 2-10 x the clean-tree maxima (they are the property's tolerance); a maximum that moves well away from what
+    # was measured at calibration is reported under its own key even though it is still inside the bound
+    drift = []
+    for name, st in stats.items():
+        base = name.split(":")[0]
+        ceil = DRIFT_CEIL.get(name, DRIFT_CEIL.get(base))
+        if ceil is not None and not (float(st["worst_err_over_eps_scale"]) <= ceil):
+            drift.append("%s worst=%s > drift ceiling %g (bound %g)" % (name, st["worst_err_over_eps_scale"], ceil, st["bound"]))
+    chk.oblige("residue-drift: every measured maximum within ~2x of the clean-tree maximum recorded at calibration (%d ceilings)" % len(DRIFT_CEIL),
+               "residue", not drift, drift or None)
+    for d in drift[:6]:
+        chk.fail("residue-drift", "residue-drift:" + d.split()[0], "measured rounding maximum drifted away from its calibration value (still inside "
+                 "the property bound): " + d, {"line": d, "worst_at": stats[d.split()[0]]["worst_at"]}, True)
     seen = set()
     for what, key, rest in fails:
         k = "residue:" + (key if ":" in key else what.split(":")[0])
@@ -114,8 +143,19 @@ def residue(chk, binary, n):
 REACHABLE_SETROTATION_LEAVES = 6
 
 
-def tv_directed(chk, binary, n, idx_deps):
-    """sym_c10c tvdir: tree vs real code, bitwise, on (from, to) pairs built to be exactly / nearly opposite (audit W8)."""
+# Leaf floors of the directed TV of tag c10 (sym_c10 tvdir): the number of leaves the directed inputs reach, measured on the clean tree at
+# seeds 1-30 (n = 1500 per element type).  slerp: all 8 combinations of the three `x*x < epsilon` tests with a non-zero combination, plus the
+# zero-length combination in the three combinations where it can occur (q1 = q2 = 0; q2 = -q1 at t = 1/2; q1 = 0 at t = 0) -- the other five
+# leaves need a zero combination together with a mixed tiny / non-tiny pattern.  log: its overflow guard needs sin(theta) = 0 with theta != 0
+# (no float).  intermediate: 3 x 3 log leaves x 3 exp leaves, less the combinations in which P = 0 exactly without both logs being 0.
+C10_LEAF_FLOORS = {"C10.Quat.slerp": 11, "C10.Quat.slerpShortestArc": 15, "C10.Quat.slerpSame": 2, "C10.Quat.intermediate": 24,
+                   "C10.Quat.log": 3, "C10.Quat.exp": 3, "C10.Quat.normalize": 2, "C10.Quat.normalized": 2, "C10.Quat.axis": 2}
+C10C_LEAF_FLOORS = {"C10.Quat.setRotationMod": REACHABLE_SETROTATION_LEAVES, "C10.rotationMatrixMod": REACHABLE_SETROTATION_LEAVES}
+
+
+def tv_directed(chk, binary, tag, n, idx_deps, floors, what):
+    """`<binary> tvdir`: tree vs real code, bitwise, on inputs built for the leaves the generic TV inputs do not reach (audit W8, r2 N4);
+    the number of leaves reached per tree is an obligation (floors measured on the clean tree, see above)."""
     cmd = [binary, "tvdir", str(chk.seed), str(n)]
     for d in idx_deps:
         cmd += ["--idx", d]
@@ -123,30 +163,32 @@ def tv_directed(chk, binary, n, idx_deps):
     rows = dict((m.group(1), [int(m.group(i)) for i in (2, 3, 4, 5)]) for m in
                 re.finditer(r"TVDIR (\S+) evals=(\d+) failures=(\d+) leaves_hit=(\d+) paths=(\d+)", out))
     fails = [l for l in out.split("\n") if l.startswith("TVFAIL")]
-    ok = rc == 0 and len(rows) == 2 and all(r[1] == 0 for r in rows.values())
-    chk.oblige("tv-directed:c10c: setRotation / rotationMatrix trees = real code, bitwise, on exactly opposite, within-a-few-eps, "
-               "nearly opposite and same-side direction pairs", "translation-validation", ok, None if ok else (fails[:5] or out[-500:]))
-    reach = len(rows) == 2 and all(r[2] >= REACHABLE_SETROTATION_LEAVES for r in rows.values())
-    chk.oblige("tv-directed:c10c: all %d reachable leaves of each 13-path tree compared with the real code" % REACHABLE_SETROTATION_LEAVES,
-               "translation-validation", reach, None if reach else rows)
+    ok = rc == 0 and set(rows) == set(floors) and all(r[1] == 0 for r in rows.values())
+    chk.oblige("tv-directed:%s: %s" % (tag, what), "translation-validation", ok, None if ok else (fails[:5] or out[-500:]))
+    short = dict((k, "%d < %d of %d" % (rows[k][2], f, rows[k][3])) for k, f in floors.items() if k in rows and rows[k][2] < f)
+    reach = set(rows) == set(floors) and not short
+    chk.oblige("tv-directed:%s: leaves compared with the real code reach the floor of every tree (%s)" % (
+        tag, ", ".join("%s %d" % (k.split(".")[-1], f) for k, f in sorted(floors.items()))),
+        "translation-validation", reach, None if reach else (short or rows))
     chk.count(sum(r[0] for r in rows.values()), sum(r[0] for r in rows.values()))
-    chk.extra.setdefault("tv", {})["c10c-directed"] = dict((k, {"evaluations": v[0], "failures": v[1], "leaves_hit": v[2], "paths": v[3]}) for k, v in rows.items())
+    chk.extra.setdefault("tv", {})[tag + "-directed"] = dict((k, {"evaluations": v[0], "failures": v[1], "leaves_hit": v[2], "paths": v[3],
+                                                                   "floor": floors.get(k)}) for k, v in rows.items())
     for l in fails[:10]:
         mm = re.match(r"TVFAIL (\S+) (\S+) :: (.*?) :: in=(.*)", l)
         if mm:
             ty, fn, detail, inp = mm.groups()
-            chk.fail("tv-directed:c10c", "tv:%s:%s" % (fn, ty),
-                     "extracted model of %s disagrees with the real instantiation at %s on a directed (opposite-direction) input" % (fn, ty),
+            chk.fail("tv-directed:" + tag, "tv:%s:%s" % (fn, ty),
+                     "extracted model of %s disagrees with the real instantiation at %s on a directed input" % (fn, ty),
                      {"function": fn, "element_type": ty, "detail": detail, "input": inp.split()}, True)
     if not ok and not fails:
-        chk.fail("tv-directed:c10c", "tv:c10c-directed", "directed translator validation did not run to completion", {"output": out[-1500:]}, False)
+        chk.fail("tv-directed:" + tag, "tv:%s-directed" % tag, "directed translator validation did not run to completion", {"output": out[-1500:]}, False)
 
 
 def _lean_tv_covers(chk, tag, fns):
     """lean_tv silently skips an entry whose cases all overflow / whose callee has no exact-fraction evaluator: make coverage an obligation."""
     info = chk.extra.get("lean_tv", {}).get(tag, {})
-    ok = info.get("functions", 0) >= len(fns) and info.get("skipped_external_calls", 1) == 0
-    chk.oblige("lean-tv:%s: every entry (%s) has Lean-side cases, none skipped for its opaque calls" % (
+    ok = info.get("functions", 0) >= len(fns) and info.get("skipped_external_calls", 1) == 0 and info.get("cases", 0) >= 2 * len(fns)
+    chk.oblige("lean-tv:%s: every entry (%s) has Lean-side cases (at least 2 per entry on average), none skipped for its opaque calls" % (
         tag, ", ".join(fns) if len(fns) <= 4 else "%d entries" % len(fns)),
                "translation-validation", ok, None if ok else info)
 
@@ -159,7 +201,9 @@ def run(chk):
     chk.assumptions = ["rounding: NOT proved; measured against exact formulas with per-check bounds c*eps*scale (partial)",
                        "squad/spline interior behaviour, tangent continuity of consecutive spline segments, the tiny-angle branches of sinx_over_x / log / exp, "
                        "and slerp at / next to q1 = -q2 (finite and unit only): MEASURED only (partial)",
-                       "slerp_angle_linear / slerpShortestArc_angle_real / intermediate_defining exclude the tiny-angle branches by hypothesis (stated with the code's own tests)",
+                       "slerp_angle_linear / slerpShortestArc_angle_real / intermediate_defining exclude the tiny-angle branches by hypothesis (stated with the code's own tests); "
+                       "about the tiny branch of sinx_over_x only its value (1) and its distance from sin x / x (< eps/6) are proved",
+                       "tangent continuity: the double-precision Richardson probe (5e-9 relative) carries the clause; the float probe excludes only relative errors above 3e-2",
                        "sqrt/sin/cos/acos/atan2 enter the algebraic theorems as parameters with explicit hypotheses (each instantiated by the real functions in an example/theorem)"]
     chk.rule = ("theorems: all quaternions / vectors over any (ordered) field with an explicit unit-norm hypothesis; analytic ones over R. "
                 "residue: unit quaternions (uniform, w near 0, w = 0, w near +-1, axis aligned, +-identity), direction pairs with angle in "
@@ -181,6 +225,9 @@ def run(chk):
         troute.tv(chk, bins["sym_c10"], "c10", 400 if chk.thorough else 64, idx_deps=[leaf_index])
         troute.lean_tv(chk, bins["sym_c10"], "c10", index, n=8 if chk.thorough else 3, idx_deps=[leaf_index])
         _lean_tv_covers(chk, "c10", [d["name"] for d in index])
+        tv_directed(chk, bins["sym_c10"], "c10", 6000 if chk.thorough else 1500, [leaf_index], C10_LEAF_FLOORS,
+                    "slerp / slerpShortestArc / intermediate / log / exp / normalize trees = real code, bitwise, on theta in {0, 1e-12 .. ~pi, "
+                    "around sqrt(eps)}, t in {0, 1e-9, 1/2, 1, 2, +-1e5 ...}, equal / antipodal / zero arguments, r = 1, denormal |v|")
         c10_index = os.path.join(troute.GEN, "index_c10.txt")
         if bins.get("sym_c10b"):
             indexb, _ = troute.regenerate(chk, bins["sym_c10b"], "c10b", idx_deps=[leaf_index, c10_index])
@@ -195,7 +242,9 @@ def run(chk):
             # emitted text of setRotationMod / rotationMatrixMod at Rat; normalized / setRotationInternal are the real templates at exact fractions
             troute.lean_tv(chk, bins["sym_c10c"], "c10c", indexc, n=24 if chk.thorough else 8, idx_deps=[leaf_index, c10_index])
             _lean_tv_covers(chk, "c10c", ["C10.Quat.setRotationMod", "C10.rotationMatrixMod", "C10.Quat.setRotationModAliasV"])
-            tv_directed(chk, bins["sym_c10c"], 3000 if chk.thorough else 600, [leaf_index, c10_index])
+            tv_directed(chk, bins["sym_c10c"], "c10c", 3000 if chk.thorough else 600, [leaf_index, c10_index], C10C_LEAF_FLOORS,
+                        "setRotation / rotationMatrix trees = real code, bitwise, on exactly opposite, within-a-few-eps, nearly opposite and "
+                        "same-side direction pairs")
             index = index + indexc
 
         cache = {}
